@@ -40,6 +40,20 @@
 //	                            definition is given in targets.json (TRUSTED, printed in the generated file under the
 //	                            word EXTERN) together with the Go source text it was written for; a change of that
 //	                            source text is a translation error (the extern must be re-validated by hand).
+//	methods with a struct receiver (f *framer) → a function from the receiver fields the body uses (f.buf → f_buf; directly
+//	                            or through a callee) to the fields it assigns, followed by the Go results. A call
+//	                            `f.M(args)` / `x := f.M(args)` of such a method on the same receiver is accepted as a
+//	                            statement or as the sole right-hand side only and rebinds the assigned fields. A struct
+//	                            PARAMETER is passed as the fields the body reads (info.proto → info_proto).
+//	panic(…)                  → a function that contains a panic statement (or calls a translated function that does)
+//	                            returns Option: panic = none, return e = some e, a call of such a function is
+//	                            `match … with | none => none | some … => rest`; refused inside loops and switches.
+//	error                     → Bool "is non-nil": nil = false; fmt.Errorf(…), errors.New(…) and the functions listed
+//	                            as "nonnil_error" externs (pinned to their source text) = true, arguments not translated.
+//	string                    → the list of its bytes (len, s[i], append(b, s...), string(b), []byte(s)); range over a
+//	                            string (runes) is refused; a constant string is the list of its bytes.
+//	if with a return / panic anywhere inside an arm → the rest of the block is duplicated into both arms.
+//	nil slices are the empty list (x == nil on a slice is refused).
 //	"segments": a consecutive run of statements of a function, translated as a function of the variables it reads
 //	to the variables it assigns (or to its return value).
 package main
@@ -86,6 +100,9 @@ type Extern struct {
 	Src  string `json:"src"`  // the Go source text (whitespace-normalised) the Lean text was written for
 	Lean string `json:"lean"` // Lean definition(s), emitted verbatim
 	Why  string `json:"why"`
+	// NonNilError: the function always returns a non-nil error value (an error constructor): a call is `true`
+	// ("is non-nil"), its arguments are not translated; no Lean text
+	NonNilError bool `json:"nonnil_error"`
 }
 
 type Targets struct {
@@ -93,22 +110,46 @@ type Targets struct {
 }
 
 type tr struct {
-	fset    *token.FileSet
-	info    *types.Info
-	pkg     *types.Package
-	known   map[string]bool // translated function names (for calls)
-	notes   []string
-	errs    []string
-	curFn   string
-	segIn   map[types.Object]bool
-	helpers []string
-	selTy   map[string]ty
-	swCount int
+	fset     *token.FileSet
+	info     *types.Info
+	pkg      *types.Package
+	known    map[string]bool // translated function names (for calls)
+	notes    []string
+	errs     []string
+	curFn    string
+	segIn    map[types.Object]bool
+	helpers  []string
+	selTy    map[string]ty
+	swCount  int
 	tmpCount int
-	useCopy bool
+	useCopy  bool
 	rngCount int
-	cnt     map[string]int // helper definitions (switch, loop) are numbered per translated function / segment
-	indent  int
+	cnt      map[string]int // helper definitions (switch, loop) are numbered per translated function / segment
+	indent   int
+	decls    map[string]*ast.FuncDecl // every function of the package by name (methods as Recv.Method)
+	finfo    map[string]*fnInfo
+	nonnil   map[string]bool // functions that always return a non-nil error (fmt.Errorf, errors.New + pinned externs)
+	opt      bool            // the function / segment being translated can panic: its result is an Option
+	resTypes []types.Type    // result types of the Go function being translated (types an untyped nil in a return)
+	outs     []string        // receiver fields the function being translated assigns (returned in front of the results)
+}
+
+// fnInfo: how a translated function is called (see "methods with a struct receiver" in the header comment)
+type fnInfo struct {
+	def      string     // Lean name
+	exploded bool       // the receiver is a (pointer to a) struct: passed as the fields the method uses
+	ins      []fieldRef // receiver fields read or assigned (directly or by a callee), in declaration order
+	outs     []fieldRef // receiver fields assigned (directly or by a callee), in declaration order
+	opt      bool       // contains `panic(…)` or calls a function that does: result is an Option
+	nres     int        // number of Go results
+	busy     bool
+}
+
+type fieldRef struct {
+	name string
+	idx  int
+	y    ty
+	ok   bool
 }
 
 func (t *tr) fail(n ast.Node, f string, a ...interface{}) string {
@@ -154,6 +195,12 @@ func (t *tr) tyOf(T types.Type) (ty, bool) {
 			return ty{"bv", 32, false, nil}, true
 		case types.Uint64, types.Uint, types.Uintptr:
 			return ty{"bv", 64, false, nil}, true
+		case types.String, types.UntypedString:
+			return ty{kind: "bytes"}, true // a string is the list of its bytes (range over a string is refused)
+		}
+	case *types.Interface:
+		if types.Identical(T, types.Universe.Lookup("error").Type()) {
+			return ty{kind: "bool"}, true // an error value is represented by the Bool "is non-nil"
 		}
 	case *types.Slice:
 		if e, ok := t.tyOf(u.Elem()); ok && e.kind == "bv" && e.w == 8 && !e.signed {
@@ -254,6 +301,13 @@ func (t *tr) expr(e ast.Expr) string {
 			}
 			return "false"
 		}
+		if ok && y.kind == "bytes" && tv.Value.Kind() == constant.String {
+			var es []string
+			for _, c := range []byte(constant.StringVal(tv.Value)) {
+				es = append(es, fmt.Sprintf("0x%x#8", c))
+			}
+			return "[" + strings.Join(es, ", ") + "]"
+		}
 	}
 	switch x := e.(type) {
 	case *ast.ParenExpr:
@@ -263,6 +317,9 @@ func (t *tr) expr(e ast.Expr) string {
 			return x.Name
 		}
 		if x.Name == "nil" {
+			if y, ok := t.tyOf(tv.Type); tv.IsNil() && ok && y.kind == "bool" {
+				return "false" // the nil error
+			}
 			if tv.IsNil() {
 				t.notes = append(t.notes, fmt.Sprintf("%s: nil []byte is the empty list (nil and empty are not distinguished)", t.curFn))
 				return "[]"
@@ -333,7 +390,31 @@ func (t *tr) expr(e ast.Expr) string {
 	return t.fail(e, "expression %T", e)
 }
 
+// exprAs: e in a context that expects the Go type T (only matters for the untyped nil: the nil error is `false`,
+// the nil slice the empty list)
+func (t *tr) exprAs(e ast.Expr, T types.Type) string {
+	if id, ok := e.(*ast.Ident); ok && id.Name == "nil" && t.info.Types[e].IsNil() && T != nil {
+		if y, ok := t.tyOf(T); ok && y.kind == "bool" {
+			return "false"
+		}
+	}
+	return t.expr(e)
+}
+
 func (t *tr) binary(x *ast.BinaryExpr) string {
+	if x.Op == token.EQL || x.Op == token.NEQ {
+		// err == nil / err != nil
+		for _, pr := range [][2]ast.Expr{{x.X, x.Y}, {x.Y, x.X}} {
+			if id, ok := pr[1].(*ast.Ident); ok && id.Name == "nil" && t.info.Types[pr[1]].IsNil() {
+				if y, ok := t.typeOfExpr(pr[0]); ok && y.kind == "bool" {
+					if x.Op == token.EQL {
+						return "(!" + t.expr(pr[0]) + ")"
+					}
+					return t.expr(pr[0])
+				}
+			}
+		}
+	}
 	a, b := t.expr(x.X), t.expr(x.Y)
 	ly, lok := t.typeOfExpr(x.X)
 	switch x.Op {
@@ -470,13 +551,17 @@ func (t *tr) call(x *ast.CallExpr) string {
 			}
 			return t.fail(x, "make")
 		}
-		if t.known[id.Name] {
-			var as []string
-			for _, a := range x.Args {
-				as = append(as, t.expr(a))
-			}
-			return "(" + leanName(id.Name) + " " + strings.Join(as, " ") + ")"
+	}
+	// a function that always returns a non-nil error (its arguments are not translated)
+	if t.isNonNil(x) {
+		return "true"
+	}
+	if cn, _ := t.callee(x); cn != "" {
+		fi := t.fninfo(cn)
+		if fi.opt || len(fi.outs) > 0 {
+			return t.fail(x, "call of %s (assigns receiver fields or can panic) inside an expression: only as a statement or the sole right-hand side", cn)
 		}
+		return t.callArgs(x, fi)
 	}
 	// math/bits
 	if se, ok := x.Fun.(*ast.SelectorExpr); ok && len(x.Args) == 1 {
@@ -492,30 +577,307 @@ func (t *tr) call(x *ast.CallExpr) string {
 			}
 		}
 	}
-	// method call recv.M(args) of a translated method `T.M`
-	if se, ok := x.Fun.(*ast.SelectorExpr); ok {
-		if sel := t.info.Uses[se.Sel]; sel != nil {
-			if fn, ok := sel.(*types.Func); ok {
-				if sig, ok := fn.Type().(*types.Signature); ok && sig.Recv() != nil {
-					rt := sig.Recv().Type()
-					if pt, ok := rt.(*types.Pointer); ok {
-						rt = pt.Elem()
-					}
-					if nt, ok := rt.(*types.Named); ok {
-						full := nt.Obj().Name() + "." + fn.Name()
-						if t.known[full] {
-							as := []string{t.expr(se.X)}
-							for _, a := range x.Args {
-								as = append(as, t.expr(a))
-							}
-							return "(" + leanName(strings.ReplaceAll(full, ".", "_")) + " " + strings.Join(as, " ") + ")"
-						}
+	return t.fail(x, "call %s", src(t.fset, x.Fun))
+}
+
+// ---- functions as callees: struct receivers, panics
+
+func (t *tr) isNonNil(c *ast.CallExpr) bool {
+	switch f := c.Fun.(type) {
+	case *ast.Ident:
+		if _, isFn := t.info.Uses[f].(*types.Func); isFn && t.nonnil[f.Name] {
+			return true
+		}
+	case *ast.SelectorExpr:
+		if pk, ok := f.X.(*ast.Ident); ok {
+			if pn, ok := t.info.Uses[pk].(*types.PkgName); ok {
+				return t.nonnil[pn.Imported().Path()+"."+f.Sel.Name]
+			}
+		}
+	}
+	return false
+}
+
+// structVar: the struct type of a variable that is a struct or a pointer to one (nil otherwise), and whether it is a pointer
+func structOf(T types.Type) (*types.Struct, bool) {
+	ptr := false
+	if p, ok := T.Underlying().(*types.Pointer); ok {
+		T, ptr = p.Elem(), true
+	}
+	st, _ := T.Underlying().(*types.Struct)
+	return st, ptr
+}
+
+func isPanic(s ast.Stmt) bool {
+	if es, ok := s.(*ast.ExprStmt); ok {
+		if c, ok := es.X.(*ast.CallExpr); ok {
+			if id, ok := c.Fun.(*ast.Ident); ok && id.Name == "panic" {
+				return true
+			}
+		}
+	}
+	return false
+}
+
+// callee resolves a call of a translated function: its name in t.known ("f" or "Recv.Method") and, for a method, the
+// receiver expression
+func (t *tr) callee(c *ast.CallExpr) (string, ast.Expr) {
+	switch f := c.Fun.(type) {
+	case *ast.Ident:
+		if t.known[f.Name] {
+			if _, isFn := t.info.Uses[f].(*types.Func); isFn {
+				return f.Name, nil
+			}
+		}
+	case *ast.SelectorExpr:
+		if fn, ok := t.info.Uses[f.Sel].(*types.Func); ok {
+			if sig, ok := fn.Type().(*types.Signature); ok && sig.Recv() != nil {
+				rt := sig.Recv().Type()
+				if pt, ok := rt.(*types.Pointer); ok {
+					rt = pt.Elem()
+				}
+				if nt, ok := rt.(*types.Named); ok {
+					if full := nt.Obj().Name() + "." + fn.Name(); t.known[full] {
+						return full, f.X
 					}
 				}
 			}
 		}
 	}
-	return t.fail(x, "call %s", src(t.fset, x.Fun))
+	return "", nil
+}
+
+func (t *tr) fninfo(name string) *fnInfo {
+	if fi, ok := t.finfo[name]; ok {
+		return fi
+	}
+	fi := &fnInfo{def: leanName(strings.ReplaceAll(name, ".", "_")), busy: true}
+	t.finfo[name] = fi
+	fd := t.decls[name]
+	if fd == nil {
+		fi.busy = false
+		return fi // an extern
+	}
+	if fd.Type.Results != nil {
+		for _, f := range fd.Type.Results.List {
+			if n := len(f.Names); n > 0 {
+				fi.nres += n
+			} else {
+				fi.nres++
+			}
+		}
+	}
+	var recv types.Object
+	var st *types.Struct
+	ptr := false
+	if fd.Recv != nil && len(fd.Recv.List) == 1 && len(fd.Recv.List[0].Names) == 1 {
+		recv = t.info.Defs[fd.Recv.List[0].Names[0]]
+		if recv != nil {
+			st, ptr = structOf(recv.Type())
+		}
+	}
+	fi.exploded = st != nil
+	ins, outs := map[int]bool{}, map[int]bool{}
+	fieldIdx := func(se *ast.SelectorExpr) int {
+		id, ok := se.X.(*ast.Ident)
+		if !ok || st == nil || t.info.Uses[id] != recv {
+			return -1
+		}
+		for i := 0; i < st.NumFields(); i++ {
+			if st.Field(i) == t.info.Uses[se.Sel] {
+				return i
+			}
+		}
+		return -1
+	}
+	lhs := func(e ast.Expr) {
+		if ix, ok := e.(*ast.IndexExpr); ok {
+			e = ix.X
+		}
+		if se, ok := e.(*ast.SelectorExpr); ok {
+			if i := fieldIdx(se); i >= 0 {
+				outs[i] = true
+			}
+		}
+	}
+	ast.Inspect(fd.Body, func(n ast.Node) bool {
+		switch x := n.(type) {
+		case *ast.SelectorExpr:
+			if i := fieldIdx(x); i >= 0 {
+				ins[i] = true
+			}
+		case *ast.AssignStmt:
+			for _, l := range x.Lhs {
+				lhs(l)
+			}
+		case *ast.IncDecStmt:
+			lhs(x.X)
+		case *ast.ExprStmt:
+			if isPanic(x) {
+				fi.opt = true
+				return false // the argument of panic is not translated
+			}
+		case *ast.CallExpr:
+			if cn, rx := t.callee(x); cn != "" {
+				ci := t.fninfo(cn)
+				if ci.busy {
+					t.fail(x, "recursive call of %s", cn)
+					return true
+				}
+				fi.opt = fi.opt || ci.opt
+				if id, ok := rx.(*ast.Ident); ok && ci.exploded && recv != nil && t.info.Uses[id] == recv {
+					for _, f := range ci.ins {
+						ins[f.idx] = true
+					}
+					for _, f := range ci.outs {
+						ins[f.idx], outs[f.idx] = true, true
+					}
+				} else if ci.exploded {
+					t.fail(x, "call of %s on something else than the receiver", cn)
+				}
+			}
+		}
+		return true
+	})
+	if st != nil {
+		for i := 0; i < st.NumFields(); i++ {
+			if ins[i] || outs[i] {
+				y, ok := t.tyOf(st.Field(i).Type())
+				fr := fieldRef{st.Field(i).Name(), i, y, ok}
+				fi.ins = append(fi.ins, fr)
+				if outs[i] {
+					fi.outs = append(fi.outs, fr)
+				}
+			}
+		}
+		if len(fi.outs) > 0 && !ptr {
+			t.fail(fd, "value receiver with assigned fields")
+		}
+	}
+	fi.busy = false
+	return fi
+}
+
+// effectful: a call of a translated function that assigns receiver fields or can panic; such a call is accepted only
+// as a statement or as the sole right-hand side of an assignment (it rebinds the fields / ends the function with none)
+func (t *tr) effectful(e ast.Expr) (*ast.CallExpr, *fnInfo) {
+	c, ok := e.(*ast.CallExpr)
+	if !ok {
+		return nil, nil
+	}
+	cn, _ := t.callee(c)
+	if cn == "" {
+		return nil, nil
+	}
+	if fi := t.fninfo(cn); fi.opt || len(fi.outs) > 0 {
+		return c, fi
+	}
+	return nil, nil
+}
+
+// hasOpt: the statements contain a panic or a call that can panic
+func (t *tr) hasOpt(list []ast.Stmt) bool {
+	found := false
+	for _, s := range list {
+		ast.Inspect(s, func(n ast.Node) bool {
+			switch x := n.(type) {
+			case *ast.ExprStmt:
+				if isPanic(x) {
+					found = true
+					return false
+				}
+			case *ast.CallExpr:
+				if cn, _ := t.callee(x); cn != "" && t.fninfo(cn).opt {
+					found = true
+				}
+			}
+			return !found
+		})
+	}
+	return found
+}
+
+// callArgs: the receiver (its fields, for a struct receiver) followed by the arguments
+func (t *tr) callArgs(c *ast.CallExpr, fi *fnInfo) string {
+	var as []string
+	if se, ok := c.Fun.(*ast.SelectorExpr); ok {
+		if fi.exploded {
+			id, ok := se.X.(*ast.Ident)
+			if !ok {
+				return t.fail(c, "method call on a non-variable struct")
+			}
+			for _, f := range fi.ins {
+				as = append(as, leanName(id.Name+"_"+f.name))
+			}
+		} else {
+			as = append(as, t.expr(se.X))
+		}
+	}
+	for _, a := range c.Args {
+		as = append(as, t.expr(a))
+	}
+	return "(" + fi.def + " " + strings.Join(as, " ") + ")"
+}
+
+// bindCall: `lhs := recv.M(args)` / `recv.M(args)` for an effectful callee
+func (t *tr) bindCall(c *ast.CallExpr, fi *fnInfo, lhs []string, cont func() string) string {
+	p := t.pad()
+	var pat []string
+	if se, ok := c.Fun.(*ast.SelectorExpr); ok && fi.exploded {
+		if id, ok := se.X.(*ast.Ident); ok {
+			for _, f := range fi.outs {
+				name := id.Name + "_" + f.name
+				t.selTy[name] = f.y
+				pat = append(pat, leanName(name))
+			}
+		}
+	}
+	if len(lhs) == 0 {
+		for i := 0; i < fi.nres; i++ {
+			lhs = append(lhs, "_")
+		}
+	}
+	if len(lhs) != fi.nres {
+		return p + t.fail(c, "call with %d results bound to %d variables", fi.nres, len(lhs)) + "\n"
+	}
+	pat = append(pat, lhs...)
+	ps := "_"
+	if len(pat) == 1 {
+		ps = pat[0]
+	} else if len(pat) > 1 {
+		ps = "(" + strings.Join(pat, ", ") + ")"
+	}
+	call := t.callArgs(c, fi)
+	if !fi.opt {
+		return fmt.Sprintf("%slet %s := %s\n", p, ps, call) + cont()
+	}
+	if !t.opt {
+		return p + t.fail(c, "call of a function that can panic") + "\n"
+	}
+	out := fmt.Sprintf("%smatch %s with\n%s| none => none\n%s| some %s =>\n", p, call, p, p, ps)
+	t.indent++
+	out += cont()
+	t.indent--
+	return out
+}
+
+// ret: the value a `return` / the end of the body produces (assigned receiver fields first; some … when the function can panic)
+func (t *tr) ret(es []string) string {
+	var all []string
+	for _, o := range t.outs {
+		all = append(all, leanName(o))
+	}
+	all = append(all, es...)
+	r := "()"
+	if len(all) == 1 {
+		r = all[0]
+	} else if len(all) > 1 {
+		r = "(" + strings.Join(all, ", ") + ")"
+	}
+	if t.opt {
+		return "(some " + r + ")"
+	}
+	return r
 }
 
 // ---- statements
@@ -561,6 +923,19 @@ func (t *tr) assigned(stmts []ast.Stmt) []string {
 	for _, s := range stmts {
 		ast.Inspect(s, func(n ast.Node) bool {
 			switch x := n.(type) {
+			case *ast.CallExpr:
+				if cn, rx := t.callee(x); cn != "" {
+					if id, ok := rx.(*ast.Ident); ok {
+						for _, f := range t.fninfo(cn).outs {
+							name := id.Name + "_" + f.name
+							t.selTy[name] = f.y
+							if !seen[name] {
+								seen[name] = true
+								out = append(out, name)
+							}
+						}
+					}
+				}
 			case *ast.AssignStmt:
 				if x.Tok == token.DEFINE {
 					for _, l := range x.Lhs {
@@ -623,6 +998,9 @@ func terminates(stmts []ast.Stmt) bool {
 	if len(stmts) == 0 {
 		return false
 	}
+	if isPanic(stmts[len(stmts)-1]) {
+		return true
+	}
 	switch x := stmts[len(stmts)-1].(type) {
 	case *ast.ReturnStmt:
 		return true
@@ -640,6 +1018,24 @@ func terminates(stmts []ast.Stmt) bool {
 		return terminates(x.Body.List) && terminates(el)
 	}
 	return false
+}
+
+// hasReturn: a return statement anywhere in the statements (an `if` with such an arm cannot be merged through a tuple:
+// the rest of the block is duplicated into both arms)
+func hasReturn(list []ast.Stmt) bool {
+	found := false
+	for _, s := range list {
+		ast.Inspect(s, func(n ast.Node) bool {
+			switch n.(type) {
+			case *ast.ReturnStmt:
+				found = true
+			case *ast.FuncLit:
+				return false
+			}
+			return !found
+		})
+	}
+	return found
 }
 
 func (t *tr) zero(T types.Type, n ast.Node) string {
@@ -672,17 +1068,20 @@ func (t *tr) stmts(list []ast.Stmt, tail func() string, results []string) string
 	case *ast.EmptyStmt:
 		return cont()
 	case *ast.ReturnStmt:
-		if len(x.Results) == 0 {
-			return t.pad() + tuple(results) + "\n"
-		}
 		var es []string
-		for _, r := range x.Results {
-			es = append(es, t.expr(r))
+		if len(x.Results) == 0 {
+			for _, r := range results {
+				es = append(es, leanName(r))
+			}
 		}
-		if len(es) == 1 {
-			return t.pad() + es[0] + "\n"
+		for i, r := range x.Results {
+			var T types.Type
+			if len(x.Results) == len(t.resTypes) {
+				T = t.resTypes[i]
+			}
+			es = append(es, t.exprAs(r, T))
 		}
-		return t.pad() + "(" + strings.Join(es, ", ") + ")\n"
+		return t.pad() + t.ret(es) + "\n"
 	case *ast.DeclStmt:
 		gd, ok := x.Decl.(*ast.GenDecl)
 		if !ok || gd.Tok != token.VAR {
@@ -716,6 +1115,19 @@ func (t *tr) stmts(list []ast.Stmt, tail func() string, results []string) string
 		}
 		return fmt.Sprintf("%slet %s := %s %s 0x1#%d\n", t.pad(), leanName(id.Name), leanName(id.Name), op, y.w) + cont()
 	case *ast.AssignStmt:
+		if len(x.Rhs) == 1 {
+			if c, fi := t.effectful(x.Rhs[0]); c != nil {
+				var lhs []string
+				for _, l := range x.Lhs {
+					id, ok := l.(*ast.Ident)
+					if !ok || (x.Tok != token.DEFINE && x.Tok != token.ASSIGN) {
+						return t.pad() + t.fail(s, "target of an assignment from a call that assigns receiver fields / can panic") + "\n"
+					}
+					lhs = append(lhs, leanName(id.Name))
+				}
+				return t.bindCall(c, fi, lhs, cont)
+			}
+		}
 		return t.assign(x) + cont()
 	case *ast.IfStmt:
 		if x.Init != nil {
@@ -730,7 +1142,7 @@ func (t *tr) stmts(list []ast.Stmt, tail func() string, results []string) string
 		default:
 			el = []ast.Stmt{e}
 		}
-		if terminates(x.Body.List) || terminates(el) {
+		if terminates(x.Body.List) || terminates(el) || hasReturn(x.Body.List) || hasReturn(el) || t.hasOpt(x.Body.List) || t.hasOpt(el) {
 			out := t.pad() + "if " + c + " then\n"
 			t.indent++
 			out += t.stmts(append(append([]ast.Stmt{}, x.Body.List...), rest...), tail, results)
@@ -756,6 +1168,15 @@ func (t *tr) stmts(list []ast.Stmt, tail func() string, results []string) string
 		t.indent -= 2
 		return out + cont()
 	case *ast.ExprStmt:
+		if isPanic(x) {
+			if !t.opt {
+				return t.pad() + t.fail(s, "panic outside a function translated with an Option result") + "\n"
+			}
+			return t.pad() + "none\n" // the statements after a panic are unreachable
+		}
+		if c, fi := t.effectful(x.X); c != nil {
+			return t.bindCall(c, fi, nil, cont)
+		}
 		// copy(dst[a:], src) / copy(dst, src) on byte slices, dst a variable
 		if c, ok := x.X.(*ast.CallExpr); ok {
 			if id, ok := c.Fun.(*ast.Ident); ok && id.Name == "copy" && len(c.Args) == 2 {
@@ -947,6 +1368,9 @@ func (t *tr) switchStmt(x *ast.SwitchStmt) string {
 			return p + t.fail(x, "return inside switch") + "\n"
 		}
 	}
+	if t.hasOpt(bodies) {
+		return p + t.fail(x, "panic (or a call that can panic) inside a switch") + "\n"
+	}
 	if len(as) == 0 {
 		return ""
 	}
@@ -1042,9 +1466,10 @@ func (t *tr) switchStmt(x *ast.SwitchStmt) string {
 	return fmt.Sprintf("%slet %s := %s %s %s\n", p, tp, hname, t.expr(x.Tag), strings.Join(args, " "))
 }
 
-
 // counted loops (see the header comment for the accepted forms):
-//   for i := a; i < b; i++ / i <= b; i++ / i > b; i-- / i >= b; i-- { body }      and      for i := range x / for i, v := range x (x a byte slice)
+//
+//	for i := a; i < b; i++ / i <= b; i++ / i > b; i-- / i >= b; i-- { body }      and      for i := range x / for i, v := range x (x a byte slice)
+//
 // A range statement is rewritten to the ForStmt it abbreviates before translation.
 func (t *tr) rangeStmt(r *ast.RangeStmt) string {
 	p := t.pad()
@@ -1055,6 +1480,9 @@ func (t *tr) rangeStmt(r *ast.RangeStmt) string {
 	}
 	if _, isId := r.X.(*ast.Ident); !isId {
 		return p + t.fail(r, "range over a non-variable") + "\n"
+	}
+	if b, ok := t.info.Types[r.X].Type.Underlying().(*types.Basic); ok && b.Info()&types.IsString != 0 {
+		return p + t.fail(r, "range over a string (iterates over runes, not bytes)") + "\n"
 	}
 	t.rngCount++
 	iname := key.Name
@@ -1126,6 +1554,9 @@ func (t *tr) loop(x ast.Node, body *ast.BlockStmt, i string, iy ty, a, b string,
 		}
 		return true
 	})
+	if bad == "" && t.hasOpt(body.List) {
+		bad = "panic (or a call that can panic)"
+	}
 	if bad != "" {
 		return p + t.fail(x, "%s inside a loop body", bad) + "\n"
 	}
@@ -1268,7 +1699,7 @@ func (t *tr) loop(x ast.Node, body *ast.BlockStmt, i string, iy ty, a, b string,
 
 // ---- functions, segments, constants
 
-func (t *tr) params(fl *ast.FieldList) ([]string, []string) {
+func (t *tr) params(fl *ast.FieldList, body ast.Node) ([]string, []string) {
 	var names, decls []string
 	if fl == nil {
 		return nil, nil
@@ -1276,6 +1707,31 @@ func (t *tr) params(fl *ast.FieldList) ([]string, []string) {
 	for _, f := range fl.List {
 		for _, id := range f.Names {
 			obj := t.info.Defs[id]
+			if st, _ := structOf(obj.Type()); st != nil && body != nil {
+				// a struct parameter is passed as the fields the body uses (read-only; assigned fields of a pointer
+				// RECEIVER are handled by fninfo)
+				seenF := map[types.Object]bool{}
+				ast.Inspect(body, func(n ast.Node) bool {
+					se, ok := n.(*ast.SelectorExpr)
+					if !ok {
+						return true
+					}
+					x, ok := se.X.(*ast.Ident)
+					fv, isField := t.info.Uses[se.Sel].(*types.Var)
+					if !ok || t.info.Uses[x] != obj || !isField || !fv.IsField() || seenF[fv] {
+						return true
+					}
+					seenF[fv] = true // (also a field promoted from an embedded struct)
+					y, ok := t.tyOf(fv.Type())
+					if !ok {
+						t.fail(id, "type %s of the field %s.%s", fv.Type(), id.Name, fv.Name())
+					}
+					names = append(names, id.Name+"_"+fv.Name())
+					decls = append(decls, fmt.Sprintf("(%s : %s)", leanName(id.Name+"_"+fv.Name()), y.lean()))
+					return true
+				})
+				continue
+			}
 			y, ok := t.tyOf(obj.Type())
 			if !ok {
 				t.fail(id, "parameter type %s", obj.Type())
@@ -1291,9 +1747,8 @@ func (t *tr) function(fd *ast.FuncDecl) string {
 	t.curFn = fd.Name.Name
 	defName := fd.Name.Name
 	var decls []string
+	var fi *fnInfo
 	if fd.Recv != nil && len(fd.Recv.List) == 1 {
-		_, rd := t.params(fd.Recv)
-		decls = append(decls, rd...)
 		rt := fd.Recv.List[0].Type
 		if st, ok := rt.(*ast.StarExpr); ok {
 			rt = st.X
@@ -1302,18 +1757,45 @@ func (t *tr) function(fd *ast.FuncDecl) string {
 			defName = id.Name + "_" + fd.Name.Name
 			t.curFn = id.Name + "." + fd.Name.Name
 		}
+		fi = t.fninfo(t.curFn)
+		if fi.exploded {
+			rn := fd.Recv.List[0].Names[0].Name
+			for _, f := range fi.ins {
+				if !f.ok {
+					t.fail(fd.Recv, "type of the receiver field %s.%s", rn, f.name)
+				}
+				decls = append(decls, fmt.Sprintf("(%s : %s)", leanName(rn+"_"+f.name), f.y.lean()))
+			}
+		} else {
+			_, rd := t.params(fd.Recv, nil)
+			decls = append(decls, rd...)
+		}
+	} else {
+		fi = t.fninfo(t.curFn)
 	}
-	_, pd := t.params(fd.Type.Params)
+	_, pd := t.params(fd.Type.Params, fd.Body)
 	decls = append(decls, pd...)
 	var resNames []string
 	var resTys []string
+	t.outs, t.opt = nil, fi.opt
+	if fi.exploded {
+		rn := fd.Recv.List[0].Names[0].Name
+		for _, f := range fi.outs {
+			t.outs = append(t.outs, rn+"_"+f.name)
+			resTys = append(resTys, f.y.lean())
+		}
+	}
 	pre := ""
+	t.resTypes = nil
 	if fd.Type.Results != nil {
 		for _, f := range fd.Type.Results.List {
 			T := t.info.Types[f.Type].Type
 			y, ok := t.tyOf(T)
 			if !ok {
 				t.fail(f.Type, "result type %s", T)
+			}
+			for k := 0; k < len(f.Names) || k == 0; k++ {
+				t.resTypes = append(t.resTypes, T)
 			}
 			if len(f.Names) == 0 {
 				resTys = append(resTys, y.lean())
@@ -1325,11 +1807,23 @@ func (t *tr) function(fd *ast.FuncDecl) string {
 			}
 		}
 	}
+	resTy := strings.Join(resTys, " × ")
+	if len(resTys) == 0 {
+		resTy = "Unit"
+	}
+	if t.opt {
+		resTy = "Option (" + resTy + ")"
+	}
 	pos := t.fset.Position(fd.Pos())
 	out := fmt.Sprintf("/-- %s `%s%s` -/\n", filepath.Base(pos.Filename), t.curFn, strings.TrimPrefix(src(t.fset, fd.Type), "func"))
-	out += fmt.Sprintf("def %s %s : %s :=\n", leanName(defName), strings.Join(decls, " "), strings.Join(resTys, " × "))
+	out += fmt.Sprintf("def %s %s : %s :=\n", leanName(defName), strings.Join(decls, " "), resTy)
 	t.indent = 1
-	out += pre + t.stmts(fd.Body.List, func() string { return tuple(resNames) }, resNames)
+	var resLean []string
+	for _, r := range resNames {
+		resLean = append(resLean, leanName(r))
+	}
+	out += pre + t.stmts(fd.Body.List, func() string { return t.ret(resLean) }, resNames)
+	t.outs, t.opt = nil, false
 	return out
 }
 
@@ -1385,6 +1879,29 @@ func (t *tr) segment(fd *ast.FuncDecl, sg Segment) string {
 	seen := map[types.Object]bool{}
 	for _, s := range seg {
 		ast.Inspect(s, func(n ast.Node) bool {
+			if es, ok := n.(*ast.ExprStmt); ok && isPanic(es) {
+				return false // the argument of panic is not translated
+			}
+			if c, ok := n.(*ast.CallExpr); ok {
+				if t.isNonNil(c) {
+					return false
+				}
+				// a call of a method on a struct variable reads the receiver fields the method uses
+				if cn, rx := t.callee(c); cn != "" {
+					if id, ok := rx.(*ast.Ident); ok {
+						if v, isVar := t.info.Uses[id].(*types.Var); isVar && !(v.Pos() >= lo && v.Pos() < hi) {
+							if st, _ := structOf(v.Type()); st != nil {
+								for _, f := range t.fninfo(cn).ins {
+									if fo := st.Field(f.idx); !seen[fo] {
+										seen[fo] = true
+										ins = append(ins, inp{id.Name + "_" + f.name, v.Pos(), f.y})
+									}
+								}
+							}
+						}
+					}
+				}
+			}
 			if se, ok := n.(*ast.SelectorExpr); ok {
 				if id, ok := se.X.(*ast.Ident); ok {
 					if v, isVar := t.info.Uses[id].(*types.Var); isVar && !(v.Pos() >= lo && v.Pos() < hi) {
@@ -1408,6 +1925,9 @@ func (t *tr) segment(fd *ast.FuncDecl, sg Segment) string {
 			}
 			if obj.Pos() >= lo && obj.Pos() < hi {
 				return true
+			}
+			if st, _ := structOf(obj.Type()); st != nil {
+				return true // a struct variable: only its fields are inputs
 			}
 			seen[obj] = true
 			y, ok := t.tyOf(obj.Type())
@@ -1509,11 +2029,27 @@ func (t *tr) segment(fd *ast.FuncDecl, sg Segment) string {
 		resTy = strings.Join(rs, " × ")
 		tail = func() string { return tuple(outs) }
 	}
+	t.resTypes = nil
+	if fd.Type.Results != nil {
+		for _, f := range fd.Type.Results.List {
+			for k := 0; k < len(f.Names) || k == 0; k++ {
+				t.resTypes = append(t.resTypes, t.info.Types[f.Type].Type)
+			}
+		}
+	}
+	t.outs, t.opt = nil, t.hasOpt(seg)
+	if t.opt {
+		resTy = "Option (" + resTy + ")"
+		if !terminates(seg) {
+			tail = func() string { return "(some " + tuple(outs) + ")" }
+		}
+	}
 	pos := t.fset.Position(seg[0].Pos())
 	out := fmt.Sprintf("/-- %s: segment of `%s`: `%s` … `%s` -/\n", filepath.Base(pos.Filename), fd.Name.Name, sg.First, sg.Last)
 	out += fmt.Sprintf("def %s %s : %s :=\n", leanName(sg.Name), strings.Join(decls, " "), resTy)
 	t.indent = 1
 	out += t.stmts(seg, tail, nil)
+	t.opt = false
 	return out
 }
 
@@ -1555,8 +2091,10 @@ func main() {
 		info := &types.Info{Types: map[ast.Expr]types.TypeAndValue{}, Defs: map[*ast.Ident]types.Object{}, Uses: map[*ast.Ident]types.Object{}}
 		conf := types.Config{Importer: importer.ForCompiler(fset, "source", nil), Error: func(error) {}, FakeImportC: true}
 		pkg, _ := conf.Check(bp.ImportPath, fset, files, info)
-		t := &tr{fset: fset, info: info, pkg: pkg, known: map[string]bool{}, selTy: map[string]ty{}, cnt: map[string]int{}}
+		t := &tr{fset: fset, info: info, pkg: pkg, known: map[string]bool{}, selTy: map[string]ty{}, cnt: map[string]int{},
+			finfo: map[string]*fnInfo{}, nonnil: map[string]bool{"fmt.Errorf": true, "errors.New": true}}
 		decls := map[string]*ast.FuncDecl{}
+		t.decls = decls
 		for _, f := range files {
 			for _, d := range f.Decls {
 				if fd, ok := d.(*ast.FuncDecl); ok && fd.Body != nil {
@@ -1588,8 +2126,13 @@ func main() {
 				allErrs = append(allErrs, fmt.Sprintf("%s: extern %s: the Go source changed since its trusted Lean definition was written (re-validate it): %s", m.Lean, ex.Name, got))
 				continue
 			}
-			t.known[ex.Name] = true
 			pos := fset.Position(fd.Pos())
+			if ex.NonNilError {
+				t.nonnil[ex.Name] = true
+				fmt.Fprintf(&body, "/- EXTERN (TRUSTED, not translated) %s `%s`: always returns a non-nil error (a call is `true`): %s\n    written for the source text: %s -/\n\n", filepath.Base(pos.Filename), ex.Name, ex.Why, ex.Src)
+				continue
+			}
+			t.known[ex.Name] = true
 			fmt.Fprintf(&body, "/-- EXTERN (TRUSTED, not translated) %s `%s`: %s\n    written for the source text: %s -/\n%s\n\n", filepath.Base(pos.Filename), ex.Name, ex.Why, ex.Src, ex.Lean)
 		}
 		// constants
